@@ -389,9 +389,66 @@ class UsesPaths(Suite):
         return repr(case)
 
 
+class UsedConfigObjects(Suite):
+    """a Config object that was made with global_vars and is then listed in `uses` of another config which carries a
+    context: the context values the used config receives afterwards - at the top level, nested, under its namespace -
+    are substituted with its global_vars like its own values, and so are the values of the using config.  The objects
+    are made afresh for every chain.  Runtime check only."""
+    name = 'used_config_objects'
+    model = ''
+
+    def gen(self, rng, tier):
+        return [dict(ns=n, where=w, inner_gv=g) for n in (None, 'sub') for w in ('top', 'nested', 'for_namespace')
+                for g in ('same', 'own') if not (w == 'for_namespace' and n is None)]
+
+    def run_impl(self, case):
+        from pathlib import Path
+        from taskchain import Config
+        from .. import pipeline as pl
+        from ..suites_chain import K, P
+        classes = [dict(K(0, 'Leaf', params=[P('own'), P('given', default=[None])]), name='leaf')]
+        with pl.workspace(dict(classes=classes, files={})) as (d, mod):
+            outer_gv = {'DIR': '/data', 'N': 'seven'}
+            inner_gv = dict(outer_gv) if case['inner_gv'] == 'same' else {'DIR': '/inner', 'N': 'eight'}
+            used = Config(Path('data'), name='used', namespace=case['ns'], data={'tasks': [f'{mod}.Leaf'], 'own': ['{DIR}/own', {'k': '{N}'}]},
+                          global_vars=inner_gv)
+            value = {'top': '{DIR}/from_context', 'nested': {'k': ['{DIR}/from_context', '{N}']}, 'for_namespace': '{DIR}/from_context'}[case['where']]
+            ctx = {'for_namespaces': {case['ns']: {'given': value}}} if case['where'] == 'for_namespace' else {'given': value}
+            main = Config(Path('data'), name='main', data={'uses': [used]}, context=ctx, global_vars=outer_gv)
+            ch = main.chain()
+            t = ch[(case['ns'] + '::' if case['ns'] else '') + 'leaf']
+            return dict(own=pl.to_spec(t.params['own']), given=pl.to_spec(t.params['given']), inner=inner_gv)
+
+    def oracle(self, case, obs):
+        if 'unexpected_exception' in obs:
+            return f'unexpected exception {obs["unexpected_exception"]}: {obs["text"]}'
+        plain = lambda v: (v['__reprstr__'][0] if isinstance(v, dict) and '__reprstr__' in v else
+                           [plain(x) for x in v] if isinstance(v, list) else {k: plain(x) for k, x in v.items()} if isinstance(v, dict) else v)
+        g = obs['inner']
+        want_own = [f'{g["DIR"]}/own', {'k': g['N']}]
+        if plain(obs['own']) != want_own:
+            return f'{case}: the used config\'s own value is {plain(obs["own"])}, with its global_vars it is {want_own}'
+        got = plain(obs['given'])
+        # the value that came from the context is substituted: with the used config's variables (it is prepared again
+        # with the context it was handed) - or, already by the using config's context, with the using config's
+        ok = []
+        for gv in (g, {'DIR': '/data', 'N': 'seven'}):
+            ok.append({'top': f'{gv["DIR"]}/from_context', 'nested': {'k': [f'{gv["DIR"]}/from_context', gv['N']]},
+                       'for_namespace': f'{gv["DIR"]}/from_context'}[case['where']])
+        if got not in ok:
+            return f'{case}: the value the used config received from the context is {got}; substituted it is {ok[0]}'
+        return None
+
+    def nontrivial(self, case, obs):
+        return True
+
+    def key(self, case):
+        return repr(case)
+
+
 class C11(Prop):
     pid = 'C11'
-    suites = [Placeholders(), ConfigData(), UsesPaths(), ContextReuse()]
+    suites = [Placeholders(), ConfigData(), UsesPaths(), ContextReuse(), UsedConfigObjects()]
     trusted_base = ["Python's re for the single pattern r'{(.*?)}' is modelled by an explicit scanner; "
                     'the correspondence compares them on brace/newline-heavy strings']
     assumptions = ['global_vars values are rendered with str(); attribute-object global_vars use identifier names '
